@@ -242,6 +242,10 @@ func (u *MySQLInsertUndoLogBuilder) getPkIndex(InsertStmt *ast.InsertStmt, meta 
 		for paramIdx := 0; paramIdx < insertColumnsSize; paramIdx++ {
 			sqlColumnName := InsertStmt.Columns[paramIdx].Name.O
 			if u.containPK(sqlColumnName, meta) {
+				// under the name the catalogue gives the key column: that is how the values are looked up
+				if columnMeta, ok := meta.GetColumnMeta(executor.DelEscape(sqlColumnName, types.DBTypeMySQL)); ok {
+					sqlColumnName = columnMeta.ColumnName
+				}
 				pkIndexMap[sqlColumnName] = paramIdx
 			}
 		}
